@@ -270,6 +270,27 @@ theorem untouched_identical (ops : List (Op C)) (p : Path) (hn : ∀ op ∈ ops,
     simp only [runOps] at this
     rw [this, h1.1]
 
+/-- … and are never even marked for writing: after any statements that did not touch `p` the file is in
+    neither the created nor the updated set, so COMMIT (which writes exactly those sets, `normal_end_publishes`)
+    does not rewrite it.  (The implementation-side counterpart is the law `untouched_file_rewritten`, which watches
+    the inode of every file.) -/
+theorem untouched_never_marked (ops : List (Op C)) (p : Path) (hn : ∀ op ∈ ops, ¬ Touches p op) :
+    ∀ (s : State C), s.created p = false ∧ s.updated p = false →
+      (runOps s ops).created p = false ∧ (runOps s ops).updated p = false := by
+  induction ops with
+  | nil => intro s h; exact h
+  | cons op ops ih =>
+    intro s hm
+    simp only [runOps, List.foldl_cons]
+    have h1 := untouched_step s op p (hn op (List.mem_cons_self ..)) hm
+    have := ih (fun o ho => hn o (List.mem_cons_of_mem _ ho)) (step s op).1 h1.2
+    simpa [runOps] using this
+
+/-- COMMIT writes no file outside the created / updated sets -/
+theorem commit_writes_only_marked (s : State C) (p : Path) (h : s.created p = false ∧ s.updated p = false) :
+    (doCommit s).disk p = s.disk p := by
+  simp [doCommit, h.1, h.2]
+
 /-! non-vacuity: a transaction that updates file 0, creates file 1, then fails -/
 example : (∀ p, (finish (runOps (fresh (fun p => if p = 0 then some [1, 2] else none))
       [.dml 0 (fun c => some (c ++ [3])), .create 1 [9]]) .error).disk p
